@@ -10,7 +10,9 @@ import (
 
 	"github.com/ipfs/go-cid"
 	carv2 "github.com/ipld/go-car/v2"
+	"github.com/ipld/go-car/v2/blockstore"
 	"github.com/ipld/go-car/v2/index"
+	"github.com/ipld/go-car/v2/storage"
 	"github.com/multiformats/go-multicodec"
 	mh "github.com/multiformats/go-multihash"
 	"verif/sim"
@@ -18,7 +20,9 @@ import (
 
 // C03: index soundness and completeness for every payload, codec and reader kind.
 
-var indexProducers = []string{"generate:sorted", "generate:mhsorted", "load:sorted", "load:mhsorted", "load:insertion", "readorgen:sorted", "readorgen:mhsorted"}
+var indexProducers = []string{"generate:sorted", "generate:mhsorted", "load:sorted", "load:mhsorted", "load:insertion", "readorgen:sorted", "readorgen:mhsorted",
+	// the indexes the read-only stores build for themselves over an io.ReaderAt
+	"readonly:mhsorted", "openreadable:insertion"}
 
 // produceIndex builds an index over the medium with one of the library's producers.
 func produceIndex(prod string, src any, opts ReadOpts) (index.Index, error) {
@@ -43,6 +47,18 @@ func produceIndex(prod string, src any, opts ReadOpts) (index.Index, error) {
 		return idx, carv2.LoadIndex(idx, src.(io.Reader), o.Options()...)
 	case "readorgen:sorted", "readorgen:mhsorted":
 		return carv2.ReadOrGenerateIndex(src.(io.ReadSeeker), o.Options()...)
+	case "readonly:mhsorted":
+		ro, err := blockstore.NewReadOnly(src.(io.ReaderAt), nil, o.Options()...)
+		if err != nil {
+			return nil, err
+		}
+		return ro.Index(), nil
+	case "openreadable:insertion":
+		rc, err := storage.OpenReadable(src.(io.ReaderAt), o.Options()...)
+		if err != nil {
+			return nil, err
+		}
+		return rc.Index(), nil
 	}
 	panic(&InfraError{"unknown index producer " + prod})
 }
@@ -187,6 +203,9 @@ func runC03One(l *Layout, prod, profile string, del sim.Delivery, opts ReadOpts,
 	if sim.IsSeekable(profile) {
 		seek = "seekable"
 	}
+	if profile == sim.ProfA {
+		seek = "readerat"
+	}
 	loc := fmt.Sprintf("%s/v%d/%s", prod, map[bool]int{false: 1, true: 2}[l.Spec.V2], seek)
 	src, core := sim.NewSource(l.Image, profile, del)
 	core.Budget = srcBudget(len(l.Image)) * 4
@@ -200,7 +219,8 @@ func runC03One(l *Layout, prod, profile string, del sim.Delivery, opts ReadOpts,
 	}
 	indexesIdentity := opts.StoreID
 	embedded := false
-	if prod[:9] == "readorgen" && l.Spec.V2 && l.Spec.IndexCodec != 0 {
+	usesEmbedded := prod[:9] == "readorgen" || prod == "readonly:mhsorted" || prod == "openreadable:insertion"
+	if usesEmbedded && l.Spec.V2 && l.Spec.IndexCodec != 0 {
 		// the embedded index is returned as is: its codec and identity policy are the file's
 		embedded = true
 		indexesIdentity = l.Spec.FullyIdx
@@ -254,7 +274,11 @@ func RunC03(t *Trace, st *Stats) *Violation {
 	var first *Violation
 	seen := map[string]bool{}
 	for _, prod := range indexProducers {
-		for _, prof := range readerProfiles {
+		profs := readerProfiles
+		if prod == "readonly:mhsorted" || prod == "openreadable:insertion" {
+			profs = []string{sim.ProfA, sim.ProfRSA, sim.ProfRSAB}
+		}
+		for _, prof := range profs {
 			if prod[:9] == "readorgen" && !sim.IsSeekable(prof) {
 				continue
 			}
@@ -301,7 +325,7 @@ func init() {
 			Prop: "C03", Level: "exploration", Engine: "medium",
 			Runs:   tierPick(tier, 8000, 1000000),
 			Budget: tierPick(tier, 50*time.Second, 12*time.Minute),
-			Rule: "valid CARv1/CARv2 images (collision alphabet: equal multihash under several codecs and CIDv0, equal digest under different hash codes, identity, truncated digests, duplicates; data padding; null padding with ZeroLengthSectionAsEOF) built by the reference codec; for each image every index producer (GenerateIndex and LoadIndex into car-index-sorted, car-multihash-index-sorted and the insertion index; ReadOrGenerateIndex) x every capability profile of the source x 2 delivery plans, x StoreIdentityCIDs x MaxIndexCidSize. Oracle: GetAll of every section CID and of near-miss/fresh probe CIDs equals the reference scan's offset set for that key (multihash / digest; anything between for the insertion index), ErrNotFound for absent keys, ForEach equals the section multiset, over-long CID -> ErrCidTooLarge. " +
+			Rule: "valid CARv1/CARv2 images (collision alphabet: equal multihash under several codecs and CIDv0, equal digest under different hash codes, identity, truncated digests, duplicates; data padding; null padding with ZeroLengthSectionAsEOF) built by the reference codec; for each image every index producer (GenerateIndex and LoadIndex into car-index-sorted, car-multihash-index-sorted and the insertion index; ReadOrGenerateIndex; the indexes blockstore.NewReadOnly and storage.OpenReadable build over an io.ReaderAt) x every capability profile of the source x 2 delivery plans, x StoreIdentityCIDs x MaxIndexCidSize. Oracle: GetAll of every section CID and of near-miss/fresh probe CIDs equals the reference scan's offset set for that key (multihash / digest; anything between for the insertion index), ErrNotFound for absent keys, ForEach equals the section multiset, over-long CID -> ErrCidTooLarge. " +
 				"An evaluation is one (image, producer, profile, delivery); distinct non-trivial = distinct (image shape+options, producer, profile, delivery class)",
 			Gen: GenC03, Exec: RunC03, Minimise: true, ExtraShrink: shrinkMedium,
 			Assume: []string{"the insertion index may answer by multihash or by digest (the statement does not say which): any offset set between the two is accepted"},
